@@ -6,7 +6,7 @@
 From VV Require Import Model.Base Model.Pattern Model.Gpo Spec.LiftSpec
   Proofs.LiftSpecProofs Proofs.ApplyProofs Proofs.GpoRefine Proofs.GpoTop Proofs.GpoNearest
   Generated.KernelsLift Proofs.KernelLiftEquiv Proofs.GpoAltOverlap
-  Model.PyLoop Generated.KernelsGpo Proofs.KernelGpoEquiv.
+  Model.PyStr Model.PyLoop Generated.KernelsGpo Proofs.KernelGpoEquiv.
 
 (* the altered sequence is the reference with every variant spliced in *)
 Theorem C05_apply_variants_is_splice : forall start ref vs,
@@ -163,6 +163,34 @@ Theorem C05_masks_match_source_with_errors : forall start n vs, 0 <= n ->
       k_compute_alt_ins_mask start n vs = match ins_mask start 0 vs (zeros n) with Ok m => Ok (zmask m) | Err e => Err e end).
 Proof. intros start n vs Hn. exact (conj (k_compute_ref_del_mask_eq start n vs Hn) (k_compute_alt_ins_mask_eq start n vs Hn)). Qed.
 
+(* the methods that read those tables, translated on every run from the class GenomicPositionOffsets (kgpo_of g is the model's record
+   with its masks read as byte arrays): ALT -> REF for every position, bounds check and exception included; REF -> ALT with both
+   nearest-position searches and the range lift with and without shrinking, for every record whose deletion mask has the declared length -
+   which from_var_stats guarantees; the overlap test of an ALT-coordinate variant wherever the model does not flag a negative array index *)
+Theorem C05_alt_to_ref_matches_source : forall g q, k_gpo_alt_to_ref_position (kgpo_of g) q = alt_to_ref_position g q.
+Proof. exact k_gpo_alt_to_ref_position_eq. Qed.
+
+Theorem C05_ref_to_alt_matches_source : forall vs r g, range_valid r = true -> from_var_stats vs r = Ok g ->
+  (forall p nearest, k_gpo_ref_to_alt_position (kgpo_of g) p nearest = ref_to_alt_position g p nearest) /\
+  (forall x shrink, k_gpo_ref_to_alt_range (kgpo_of g) x shrink = ref_to_alt_range g x shrink).
+Proof.
+  intros vs r g Hv H.
+  exact (conj (fun p n => k_gpo_ref_to_alt_position_eq g p n (from_var_stats_del_length vs r g Hv H))
+              (fun x s => k_gpo_ref_to_alt_range_eq g x s (from_var_stats_del_length vs r g Hv H))).
+Qed.
+
+Theorem C05_alt_var_overlap_matches_source : forall g v,
+  alt_var_overlaps_var g (v_pos v) (zlen (v_ref v)) <> Err OtherErr ->
+  k_gpo_alt_var_overlaps_var (kgpo_of g) v = alt_var_overlaps_var g (v_pos v) (zlen (v_ref v)).
+Proof. exact k_gpo_alt_var_overlaps_var_eq. Qed.
+
+(* the recorded finding read off the translated source: one base on an insertion point is not reported, two bases over it are *)
+Theorem C05_alt_single_base_insertion_point_in_source :
+  exists g, from_var_stats [mkVS 13 0 2] (mkRange 10 20) = Ok g /\
+    k_gpo_alt_var_overlaps_var (kgpo_of g) (mkVar 15 [A] [C]) = Ok false /\
+    k_gpo_alt_var_overlaps_var (kgpo_of g) (mkVar 14 [A; A] []) = Ok true.
+Proof. exact alt_single_base_insertion_point_in_source. Qed.
+
 (* non-vacuity: a deletion and an insertion in [10, 30] *)
 Example C05_liftover_tables_example :
   exists g, from_var_stats [mkVS 12 3 0; mkVS 20 0 2] (mkRange 10 30) = Ok g /\ g_alt_length g = 20
@@ -213,5 +241,9 @@ Print Assumptions C05_var_stats_match_source.
 Print Assumptions C05_liftover_tables_match_source.
 Print Assumptions C05_pos_offset_lookup_matches_source.
 Print Assumptions C05_masks_match_source_with_errors.
+Print Assumptions C05_alt_to_ref_matches_source.
+Print Assumptions C05_ref_to_alt_matches_source.
+Print Assumptions C05_alt_var_overlap_matches_source.
+Print Assumptions C05_alt_single_base_insertion_point_in_source.
 Print Assumptions C05_alt_var_overlap_characterised.
 Print Assumptions C05_alt_single_base_insertion_point_refuted.
